@@ -59,6 +59,10 @@ def run(ctx: Ctx, rep: Report) -> None:
     can_exe(ctx, rep)
     publish(ctx, rep)
     perm_align(ctx, rep)
+    # control passes hand the mappings over through PassData.become
+    from ..rules import fields
+    fields.rule_become(
+        ctx, rep, ctx.cls('bqskit/compiler/passdata.py:PassData'))
     # a swap that is only tried out is taken back on every exit
     from ..rules.undo import rule_undo
     rule_undo(ctx, rep, ('bqskit/passes/mapping/',), 1)
